@@ -46,6 +46,11 @@ class Module:
                 for t in st.targets:
                     if isinstance(t, ast.Name):
                         self.toplevel.setdefault(t.id, []).append(st.value)
+                    elif isinstance(t, (ast.Tuple, ast.List)) and isinstance(st.value, (ast.Tuple, ast.List)) \
+                            and len(t.elts) == len(st.value.elts):
+                        for te, ve in zip(t.elts, st.value.elts):
+                            if isinstance(te, ast.Name):
+                                self.toplevel.setdefault(te.id, []).append(ve)
             elif isinstance(st, ast.AnnAssign) and isinstance(st.target, ast.Name) and st.value is not None:
                 self.toplevel.setdefault(st.target.id, []).append(st.value)
 
@@ -131,12 +136,16 @@ class Repo:
                 self.modules[modname] = Module(modname, path, rel, text)
         self._index_all()
         self.inlined = []
+        self.opaque_callers = {}
         if inline:
             from . import inline as INL
             known = INL.load_known()
             if known is not None:
                 inl = INL.Inliner(self, known)
                 dissolved = inl.run()
+                self.opaque_callers = {k: sorted(v) for k, v in inl.opaque.items()}
+                for q in inl.new_complex:
+                    self.opaque_callers.setdefault(q, []).append(q)
                 if inl.inlined_sites:
                     for q in dissolved:
                         f = self.funcs[q]
@@ -316,3 +325,15 @@ class Repo:
 
     def digests(self, names=None):
         return {m.relpath: m.sha256 for n, m in sorted(self.modules.items()) if names is None or n in names}
+
+    def function_at(self, relpath, lineno):
+        """qualname of the innermost function containing relpath:lineno"""
+        best = None
+        for q, f in self.funcs.items():
+            if f.module.relpath != relpath:
+                continue
+            a, b = f.node.lineno, getattr(f.node, "end_lineno", f.node.lineno)
+            if a <= lineno <= (b or a):
+                if best is None or a >= best[1]:
+                    best = (q, a)
+        return best[0] if best else None
